@@ -302,4 +302,89 @@ theorem inode_change_time_is_not_creation :
     let m : FileMeta := { st := { st_mtime := 0, st_ctime := 7, st_atime := 9, st_birthtime := 0 }, crtime := none }
     m.st.st_ctime ≠ specCreation m ∧ getCtime .linuxXattr m = 0 ∧ getCtime .noXattr m = 0 := by decide
 
+/-! ### aware times given with a zone object -/
+
+/-- `aware_time_keeps_its_zone`: whether `time_init` is read in the records' zone, and whether the first
+limit is made naive, depends on `time_init.tzinfo is None` alone – a zone object whose
+`utcoffset(None)` is `None` (zoneinfo / pytz / dateutil style) is as aware as a fixed offset.  This is what
+lets the model branch on `TimeInit.tz` only. -/
+theorem aware_time_keeps_its_zone (tzinfoIsNone utcoffsetIsNone : Bool) :
+    timeInitUsesRecordZone tzinfoIsNone utcoffsetIsNone = tzinfoIsNone ∧
+    timeInitLimitNaive tzinfoIsNone utcoffsetIsNone = tzinfoIsNone := by
+  cases tzinfoIsNone <;> cases utcoffsetIsNone <;> decide
+
+/-- refuting witness for the shape "naive iff `utcoffset()` is None": 12:00 in a zone at +9 h, records at
+UTC, file created 1970-01-01 00:00 UTC – the first boundary is 03:00 UTC (12:00 in the zone); reading
+the time in the records' zone would give 12:00 UTC -/
+theorem zone_object_first_limit :
+    let F := Form.dailyAt ⟨12, 0, 0, 0, some 32400000000⟩
+    firstLimit F.cfg 0 0 - F.frame 0 = 10800000000 ∧
+    firstLimit (Form.dailyAt ⟨12, 0, 0, 0, none⟩).cfg 0 0 = 43200000000 := by decide +kernel
+
+/-! ### the creation tag of files made by a rotation, across restarts -/
+
+/-- `rotation_tags_new_file`: the file a rotation creates is tagged with the instant of the rotation
+(regenerated: `set_ctime(new_path, now)` is unconditional in `_terminate_file`) -/
+theorem rotation_tags_new_file (ls : List Leaf) (s : Sink) (m : Msg)
+    (hrot : (groupCall ls s.states
+      { ctime := s.creation, stamp := m.stamp, bytes := m.bytes, chars := m.chars, tell := s.cur.size }).1 = true) :
+    (Sink.write ls s m).tag = some m.stamp.utc ∧ (Sink.write ls s m).creation = m.stamp.utc := by
+  have h : newFileTaggedWithNow = true := by decide
+  unfold Sink.write
+  simp only [hrot, if_true, h]
+  simp [Sink.creation]
+
+/-- a tagged file keeps its creation instant through a write that does not rotate … -/
+theorem write_keeps_tag (ls : List Leaf) (s : Sink) (m : Msg) (v : Int) (ht : s.tag = some v)
+    (hno : (groupCall ls s.states
+      { ctime := s.creation, stamp := m.stamp, bytes := m.bytes, chars := m.chars, tell := s.cur.size }).1 = false) :
+    (Sink.write ls s m).tag = some v := by
+  have hc : s.creation = v := by simp [Sink.creation, ht]
+  unfold Sink.write
+  simp only [hno]
+  simp only [Bool.false_eq_true, if_false]
+  split
+  · rw [hc]
+  · exact ht
+
+/-- … and through a restart of the sink -/
+theorem restart_keeps_tag (ls : List Leaf) (s : Sink) : (Sink.restart ls s).tag = s.tag ∧
+    (Sink.restart ls s).mtime = s.mtime ∧ (Sink.restart ls s).cur = s.cur ∧ (Sink.restart ls s).closed = s.closed := by
+  simp [Sink.restart]
+
+/-- a history of restarts and of messages none of which rotates -/
+def Quiet (ls : List Leaf) : Sink → List SinkOp → Prop
+  | _, [] => True
+  | s, .restart :: ops => Quiet ls (Sink.restart ls s) ops
+  | s, .msg m :: ops =>
+    (groupCall ls s.states
+      { ctime := s.creation, stamp := m.stamp, bytes := m.bytes, chars := m.chars, tell := s.cur.size }).1 = false ∧
+    Quiet ls (Sink.write ls s m) ops
+
+/-- `restart_counts_from_rotation_instant`: after a rotation at message `m`, any number of further
+writes into the new file and restarts of the sink later, the creation time the next `RotationTime`
+reads is still the instant of that rotation – not the last write (four-step history: rotation, write,
+restart, message) -/
+theorem restart_counts_from_rotation_instant (ls : List Leaf) (s : Sink) (m : Msg) (ops : List SinkOp)
+    (hrot : (groupCall ls s.states
+      { ctime := s.creation, stamp := m.stamp, bytes := m.bytes, chars := m.chars, tell := s.cur.size }).1 = true)
+    (hq : Quiet ls (Sink.write ls s m) ops) :
+    (Sink.runOps ls (Sink.write ls s m) ops).creation = m.stamp.utc := by
+  have key : ∀ (ops : List SinkOp) (t : Sink) (v : Int), t.tag = some v → Quiet ls t ops →
+      (Sink.runOps ls t ops).tag = some v := by
+    intro ops
+    induction ops with
+    | nil => intro t v ht _; simpa [Sink.runOps] using ht
+    | cons op ops ih =>
+      intro t v ht hq
+      cases op with
+      | restart =>
+        simp only [Sink.runOps, List.foldl_cons, Sink.step]
+        exact ih _ v (by rw [(restart_keeps_tag ls t).1]; exact ht) hq
+      | msg m' =>
+        simp only [Sink.runOps, List.foldl_cons, Sink.step]
+        exact ih _ v (write_keeps_tag ls t m' v ht hq.1) hq.2
+  have := key ops _ _ (rotation_tags_new_file ls s m hrot).1 hq
+  simp [Sink.creation, this]
+
 end C07
